@@ -320,6 +320,9 @@ func prepare(p *propCfg, repo string) (string, error) {
 	return worker, nil
 }
 
+// counters of the companion worker for the evidence file
+var confRuns, confRaces, confDetN int
+
 // confBin is the companion worker of the current (Engine C) check, see prepare.
 var confBin string
 
@@ -623,6 +626,7 @@ func checkCmd(p *propCfg, tier, repo string, writeEvidence bool) int {
 		go func() { wrapCh <- realWrap(p, dir) }()
 	}
 	var confCh chan []*workerOut
+	confRuns, confRaces, confDetN = 0, 0, 0
 	if confBin != "" {
 		confCh = make(chan []*workerOut, 1)
 		go func() {
@@ -646,6 +650,10 @@ func checkCmd(p *propCfg, tier, repo string, writeEvidence bool) int {
 		if co == nil {
 			return 2
 		}
+		for _, o := range co {
+			confRuns += o.Runs
+			confRaces += o.RaceReports
+		}
 		outs = append(outs, co...)
 	}
 	agg := aggregate(outs, dir)
@@ -662,6 +670,21 @@ func checkCmd(p *propCfg, tier, repo string, writeEvidence bool) int {
 		detN = len(a[0].RunHashes)
 		if strings.Join(a[0].RunHashes, "\n") != strings.Join(b[0].RunHashes, "\n") {
 			detOK = false
+		}
+		if confBin != "" {
+			// the companion worker's schedules must replay as well
+			pc := *p
+			pc.Engine = "A"
+			ca, e1 := explore(&pc, confBin, filepath.Join(dir, "cdet1"), seed, 1, 0, 20, tier, true, "VERIF_GOMAXPROCS=1", "VERIF_CONF_PROP="+p.ID)
+			cb, e2 := explore(&pc, confBin, filepath.Join(dir, "cdet2"), seed, 1, 0, 20, tier, true, "VERIF_GOMAXPROCS=4", "VERIF_CONF_PROP="+p.ID)
+			if e1 != nil || e2 != nil {
+				fmt.Fprintf(os.Stderr, "verifctl: determinism self-check of the companion worker could not run: %v %v\n", e1, e2)
+				return 2
+			}
+			confDetN = len(ca[0].RunHashes)
+			if strings.Join(ca[0].RunHashes, "\n") != strings.Join(cb[0].RunHashes, "\n") {
+				detOK = false
+			}
 		}
 	}
 	if !detOK {
@@ -972,6 +995,10 @@ func writeEvidenceFile(p *propCfg, tier string, seed uint64, a *aggT, reported [
 		"determinism_selfcheck": map[string]any{"runs_compared": detN, "processes": 2, "gomaxprocs": []int{1, 4}, "identical": true},
 		"findings":              reported,
 		"notes":                 a.notes,
+	}
+	if confBin != "" {
+		cov["companion_worker"] = map[string]any{"engine": "A", "race_detector": true, "built_from": "unrewritten copy of the tree", "runs": confRuns,
+			"race_reports": confRaces, "determinism_runs_compared": confDetN}
 	}
 	for k, v := range a.extra {
 		cov[k] = v
